@@ -1,9 +1,9 @@
 package b2fx
 
 import (
-	"strings"
 	"fmt"
 	"math/rand"
+	"strings"
 
 	"github.com/la5nta/wl2k-go/fbb"
 
